@@ -12,7 +12,8 @@ def perPoint (it : SimpleIter) (p : SPoint) : SPoint :=
   let p := if it.opts.s2c then convertToCartesian p else p
   let p := if it.opts.c2s then convertToSpherical p else p
   let p := if it.opts.i2c then convertIntensity p else p
-  if it.opts.transform then transformPoint it.rotation it.translation p else p
+  -- the pose is applied only when the point cloud has one (the identity is not neutral for floats)
+  if it.opts.transform && it.pc.transform.isSome then transformPoint it.rotation it.translation p else p
 
 /-- the documented function from one raw point (and the metadata held by `it`) to a simple point -/
 def fullView (it : SimpleIter) (vs : List Value) : Option SPoint :=
@@ -22,14 +23,16 @@ def fullView (it : SimpleIter) (vs : List Value) : Option SPoint :=
 theorem postProcess_eq_map (it : SimpleIter) (batch : List SPoint) :
     postProcess it batch = batch.map (perPoint it) := by
   unfold postProcess perPoint
-  cases it.opts.s2c <;> cases it.opts.c2s <;> cases it.opts.i2c <;> cases it.opts.transform <;>
+  cases it.opts.s2c <;> cases it.opts.c2s <;> cases it.opts.i2c <;>
+    cases (it.opts.transform && it.pc.transform.isSome) <;>
     simp [List.map_map, Function.comp_def]
 
-/-- `perPoint` reads only `opts`, `rotation`, `translation` -/
+/-- `perPoint` reads only `opts`, whether the point cloud has a pose, `rotation`, `translation` -/
 theorem perPoint_congr (it it' : SimpleIter) (ho : it'.opts = it.opts)
+    (hp : it'.pc.transform.isSome = it.pc.transform.isSome)
     (hr : it'.rotation = it.rotation) (ht : it'.translation = it.translation) :
     perPoint it' = perPoint it := by
-  funext p; simp [perPoint, ho, hr, ht]
+  funext p; simp [perPoint, ho, hp, hr, ht]
 
 /-- `viewPoint` reads only `pc.prototype`, `indices`, `opts.nc`, `opts.ni` and the four ranges -/
 theorem viewPoint_congr (it it' : SimpleIter) (hp : it'.pc = it.pc) (hi : it'.indices = it.indices)
@@ -512,14 +515,17 @@ theorem refill_noop (fuel : Nat) (q : QR) (r : PR) (h : 1 ≤ q.available) :
 theorem refill_noop' (q : QR) (r : PR) (h : 1 ≤ q.available) :
     refill (refillFuel r) q r = (r, q, true) := refill_noop _ q r h
 
-/-- `perPoint` as a function of the three fields it reads -/
-def perPointOf (opts : Options) (rot : Array Float) (tr : Float × Float × Float) (p : SPoint) : SPoint :=
+/-- `perPoint` as a function of the four things it reads: the options, whether the point cloud has a
+    pose (`pose`), and the prepared rotation and translation -/
+def perPointOf (opts : Options) (pose : Bool) (rot : Array Float) (tr : Float × Float × Float)
+    (p : SPoint) : SPoint :=
   let p := if opts.s2c then convertToCartesian p else p
   let p := if opts.c2s then convertToSpherical p else p
   let p := if opts.i2c then convertIntensity p else p
-  if opts.transform then transformPoint rot tr p else p
+  if opts.transform && pose then transformPoint rot tr p else p
 
-theorem perPoint_eq (it : SimpleIter) : perPoint it = perPointOf it.opts it.rotation it.translation := rfl
+theorem perPoint_eq (it : SimpleIter) :
+    perPoint it = perPointOf it.opts it.pc.transform.isSome it.rotation it.translation := rfl
 
 theorem filterMap_fullView (it : SimpleIter) (l : List (List Value)) :
     l.filterMap (fullView it) = (l.filterMap (viewPoint it)).map (perPoint it) := by
@@ -1325,11 +1331,11 @@ theorem transformPoint_cartesian_congr (rot : Array Float) (tr : Float × Float 
 /-! ### the composition: what each output field depends on -/
 
 /-- `intensity`, `row`, `column` are never touched by the post-processing -/
-theorem perPointOf_frame (o : Options) (rot : Array Float) (tr : Float × Float × Float) (p : SPoint) :
-    (perPointOf o rot tr p).intensity = p.intensity ∧ (perPointOf o rot tr p).row = p.row ∧
-    (perPointOf o rot tr p).column = p.column := by
+theorem perPointOf_frame (o : Options) (pose : Bool) (rot : Array Float) (tr : Float × Float × Float) (p : SPoint) :
+    (perPointOf o pose rot tr p).intensity = p.intensity ∧ (perPointOf o pose rot tr p).row = p.row ∧
+    (perPointOf o pose rot tr p).column = p.column := by
   unfold perPointOf
-  cases o.s2c <;> cases o.c2s <;> cases o.i2c <;> cases o.transform <;>
+  cases o.s2c <;> cases o.c2s <;> cases o.i2c <;> cases o.transform <;> cases pose <;>
     simp [convertToCartesian_frame, convertToSpherical_frame, convertIntensity_frame,
       transformPoint_frame]
 
@@ -1347,11 +1353,11 @@ theorem coords_congr {o o' : Options} {p p' : SPoint} (hc : p.cartesian = p'.car
     exact ⟨convertToCartesian_cartesian_congr hc hs,
       by rw [(convertToCartesian_frame p).1, (convertToCartesian_frame p').1, hs]⟩
 
-/-- outgoing `cartesian` = F(incoming cartesian, incoming spherical; `s2c`, `transform`, pose) -/
-theorem perPointOf_cartesian_congr {o o' : Options} (rot : Array Float) (tr : Float × Float × Float)
+/-- outgoing `cartesian` = F(incoming cartesian, incoming spherical; `s2c`, `transform`, has-pose, pose) -/
+theorem perPointOf_cartesian_congr {o o' : Options} (pose : Bool) (rot : Array Float) (tr : Float × Float × Float)
     {p p' : SPoint} (hc : p.cartesian = p'.cartesian) (hs : p.spherical = p'.spherical)
     (h1 : o.s2c = o'.s2c) (h2 : o.transform = o'.transform) :
-    (perPointOf o rot tr p).cartesian = (perPointOf o' rot tr p').cartesian := by
+    (perPointOf o pose rot tr p).cartesian = (perPointOf o' pose rot tr p').cartesian := by
   have ⟨e1, _⟩ := coords_congr hc hs h1
   unfold perPointOf
   rw [← h2]
@@ -1368,16 +1374,18 @@ theorem perPointOf_cartesian_congr {o o' : Options} (rot : Array Float) (tr : Fl
     cases o.i2c <;> cases o'.i2c <;> simp [convertIntensity_frame, e2]
   generalize (if o.i2c then convertIntensity q2 else q2) = q3 at e3 ⊢
   generalize (if o'.i2c then convertIntensity q2' else q2') = q3' at e3 ⊢
-  cases o.transform
+  cases o.transform <;> cases pose
+  · simpa using e3
+  · simpa using e3
   · simpa using e3
   · simpa using transformPoint_cartesian_congr rot tr e3
 
 /-- outgoing `spherical` = G(incoming cartesian, incoming spherical; `s2c`, `c2s`) -/
-theorem perPointOf_spherical_congr {o o' : Options} (rot rot' : Array Float)
+theorem perPointOf_spherical_congr {o o' : Options} (pose pose' : Bool) (rot rot' : Array Float)
     (tr tr' : Float × Float × Float)
     {p p' : SPoint} (hc : p.cartesian = p'.cartesian) (hs : p.spherical = p'.spherical)
     (h1 : o.s2c = o'.s2c) (h2 : o.c2s = o'.c2s) :
-    (perPointOf o rot tr p).spherical = (perPointOf o' rot' tr' p').spherical := by
+    (perPointOf o pose rot tr p).spherical = (perPointOf o' pose' rot' tr' p').spherical := by
   have ⟨e1, e1'⟩ := coords_congr hc hs h1
   unfold perPointOf
   rw [← h2]
@@ -1396,14 +1404,14 @@ theorem perPointOf_spherical_congr {o o' : Options} (rot rot' : Array Float)
     cases o.i2c <;> cases o'.i2c <;> simp [convertIntensity_frame, e2]
   generalize (if o.i2c then convertIntensity q2 else q2) = q3 at e3 ⊢
   generalize (if o'.i2c then convertIntensity q2' else q2') = q3' at e3 ⊢
-  cases o.transform <;> cases o'.transform <;> simp [transformPoint_frame, e3]
+  cases o.transform <;> cases o'.transform <;> cases pose <;> cases pose' <;> simp [transformPoint_frame, e3]
 
 /-- outgoing `color` = H(incoming color, incoming intensity; `i2c`) -/
-theorem perPointOf_color_congr {o o' : Options} (rot rot' : Array Float)
+theorem perPointOf_color_congr {o o' : Options} (pose pose' : Bool) (rot rot' : Array Float)
     (tr tr' : Float × Float × Float)
     {p p' : SPoint} (hc : p.color = p'.color) (hi : p.intensity = p'.intensity)
     (h1 : o.i2c = o'.i2c) :
-    (perPointOf o rot tr p).color = (perPointOf o' rot' tr' p').color := by
+    (perPointOf o pose rot tr p).color = (perPointOf o' pose' rot' tr' p').color := by
   unfold perPointOf
   rw [← h1]
   have e1 : (if o.s2c then convertToCartesian p else p).color
@@ -1428,11 +1436,11 @@ theorem perPointOf_color_congr {o o' : Options} (rot rot' : Array Float)
     · simpa using convertIntensity_color_congr e2.1 e2.2
   generalize (if o.i2c then convertIntensity q2 else q2) = q3 at e3 ⊢
   generalize (if o.i2c then convertIntensity q2' else q2') = q3' at e3 ⊢
-  cases o.transform <;> cases o'.transform <;> simp [transformPoint_frame, e3]
+  cases o.transform <;> cases o'.transform <;> cases pose <;> cases pose' <;> simp [transformPoint_frame, e3]
 
 /-- with `i2c` off, or when the incoming colour is present, the colour is passed through -/
-theorem perPointOf_color_passthrough (o : Options) (rot : Array Float) (tr : Float × Float × Float)
-    (p : SPoint) (h : o.i2c = false ∨ p.color.isSome) : (perPointOf o rot tr p).color = p.color := by
+theorem perPointOf_color_passthrough (o : Options) (pose : Bool) (rot : Array Float) (tr : Float × Float × Float)
+    (p : SPoint) (h : o.i2c = false ∨ p.color.isSome) : (perPointOf o pose rot tr p).color = p.color := by
   unfold perPointOf
   have e1 : (if o.s2c then convertToCartesian p else p).color = p.color := by
     cases o.s2c <;> simp [convertToCartesian_frame]
@@ -1448,72 +1456,99 @@ theorem perPointOf_color_passthrough (o : Options) (rot : Array Float) (tr : Flo
       · simpa using e2
       · rw [← e2] at h; simpa [convertIntensity_color_of_isSome h] using e2
   generalize (if o.i2c then convertIntensity q2 else q2) = q3 at e3 ⊢
-  cases o.transform <;> simp [transformPoint_frame, e3]
+  cases o.transform <;> cases pose <;> simp [transformPoint_frame, e3]
 
 
 /-! ### the six switches -/
 
-/-- `transform` influences at most `cartesian` -/
-theorem locality_transform (o : Options) (b : Bool) (rot : Array Float) (tr : Float × Float × Float)
+/-- `transform` influences at most `cartesian` (whether or not the point cloud has a pose: `pose`) -/
+theorem locality_transform (o : Options) (b : Bool) (pose : Bool) (rot : Array Float) (tr : Float × Float × Float)
     (p : SPoint) :
-    let f' := perPointOf { o with transform := b } rot tr p
-    let f := perPointOf o rot tr p
+    let f' := perPointOf { o with transform := b } pose rot tr p
+    let f := perPointOf o pose rot tr p
     f'.spherical = f.spherical ∧ f'.color = f.color ∧ f'.intensity = f.intensity ∧
     f'.row = f.row ∧ f'.column = f.column := by
-  have h' := perPointOf_frame { o with transform := b } rot tr p
-  have h := perPointOf_frame o rot tr p
-  exact ⟨perPointOf_spherical_congr rot rot tr tr rfl rfl rfl rfl,
-    perPointOf_color_congr rot rot tr tr rfl rfl rfl,
+  have h' := perPointOf_frame { o with transform := b } pose rot tr p
+  have h := perPointOf_frame o pose rot tr p
+  exact ⟨perPointOf_spherical_congr pose pose rot rot tr tr rfl rfl rfl rfl,
+    perPointOf_color_congr pose pose rot rot tr tr rfl rfl rfl,
     by rw [h'.1, h.1], by rw [h'.2.1, h.2.1], by rw [h'.2.2, h.2.2]⟩
 
 /-- `s2c` influences at most `cartesian` and – only when `c2s` is on – `spherical` -/
-theorem locality_s2c (o : Options) (b : Bool) (rot : Array Float) (tr : Float × Float × Float)
+theorem locality_s2c (o : Options) (b : Bool) (pose : Bool) (rot : Array Float) (tr : Float × Float × Float)
     (p : SPoint) :
-    let f' := perPointOf { o with s2c := b } rot tr p
-    let f := perPointOf o rot tr p
+    let f' := perPointOf { o with s2c := b } pose rot tr p
+    let f := perPointOf o pose rot tr p
     f'.color = f.color ∧ f'.intensity = f.intensity ∧ f'.row = f.row ∧ f'.column = f.column ∧
     (o.c2s = false → f'.spherical = f.spherical) := by
-  have h' := perPointOf_frame { o with s2c := b } rot tr p
-  have h := perPointOf_frame o rot tr p
-  refine ⟨perPointOf_color_congr rot rot tr tr rfl rfl rfl,
+  have h' := perPointOf_frame { o with s2c := b } pose rot tr p
+  have h := perPointOf_frame o pose rot tr p
+  refine ⟨perPointOf_color_congr pose pose rot rot tr tr rfl rfl rfl,
     by rw [h'.1, h.1], by rw [h'.2.1, h.2.1], by rw [h'.2.2, h.2.2], ?_⟩
   intro hc
   unfold perPointOf
   simp only [hc]
-  cases b <;> cases o.s2c <;> cases o.i2c <;> cases o.transform <;>
+  cases b <;> cases o.s2c <;> cases o.i2c <;> cases o.transform <;> cases pose <;>
     simp [convertToCartesian_frame, convertIntensity_frame, transformPoint_frame]
 
 /-- `c2s` influences at most `spherical` -/
-theorem locality_c2s (o : Options) (b : Bool) (rot : Array Float) (tr : Float × Float × Float)
+theorem locality_c2s (o : Options) (b : Bool) (pose : Bool) (rot : Array Float) (tr : Float × Float × Float)
     (p : SPoint) :
-    let f' := perPointOf { o with c2s := b } rot tr p
-    let f := perPointOf o rot tr p
+    let f' := perPointOf { o with c2s := b } pose rot tr p
+    let f := perPointOf o pose rot tr p
     f'.cartesian = f.cartesian ∧ f'.color = f.color ∧ f'.intensity = f.intensity ∧
     f'.row = f.row ∧ f'.column = f.column := by
-  have h' := perPointOf_frame { o with c2s := b } rot tr p
-  have h := perPointOf_frame o rot tr p
-  exact ⟨perPointOf_cartesian_congr rot tr rfl rfl rfl rfl,
-    perPointOf_color_congr rot rot tr tr rfl rfl rfl,
+  have h' := perPointOf_frame { o with c2s := b } pose rot tr p
+  have h := perPointOf_frame o pose rot tr p
+  exact ⟨perPointOf_cartesian_congr pose rot tr rfl rfl rfl rfl,
+    perPointOf_color_congr pose pose rot rot tr tr rfl rfl rfl,
     by rw [h'.1, h.1], by rw [h'.2.1, h.2.1], by rw [h'.2.2, h.2.2]⟩
 
 /-- `i2c` influences at most `color` -/
-theorem locality_i2c (o : Options) (b : Bool) (rot : Array Float) (tr : Float × Float × Float)
+theorem locality_i2c (o : Options) (b : Bool) (pose : Bool) (rot : Array Float) (tr : Float × Float × Float)
     (p : SPoint) :
-    let f' := perPointOf { o with i2c := b } rot tr p
-    let f := perPointOf o rot tr p
+    let f' := perPointOf { o with i2c := b } pose rot tr p
+    let f := perPointOf o pose rot tr p
     f'.cartesian = f.cartesian ∧ f'.spherical = f.spherical ∧ f'.intensity = f.intensity ∧
     f'.row = f.row ∧ f'.column = f.column := by
-  have h' := perPointOf_frame { o with i2c := b } rot tr p
-  have h := perPointOf_frame o rot tr p
-  exact ⟨perPointOf_cartesian_congr rot tr rfl rfl rfl rfl,
-    perPointOf_spherical_congr rot rot tr tr rfl rfl rfl rfl,
+  have h' := perPointOf_frame { o with i2c := b } pose rot tr p
+  have h := perPointOf_frame o pose rot tr p
+  exact ⟨perPointOf_cartesian_congr pose rot tr rfl rfl rfl rfl,
+    perPointOf_spherical_congr pose pose rot rot tr tr rfl rfl rfl rfl,
     by rw [h'.1, h.1], by rw [h'.2.1, h.2.1], by rw [h'.2.2, h.2.2]⟩
 
+/-- `transform` influences at most the VALID `cartesian` coordinates: a direction-only or invalid
+    coordinate triple (kind 1, 2) is passed through whatever the switch says -/
+theorem locality_transform_cartesian (o : Options) (b : Bool) (pose : Bool) (rot : Array Float)
+    (tr : Float × Float × Float) (p : SPoint) :
+    let f' := perPointOf { o with transform := b } pose rot tr p
+    let f := perPointOf o pose rot tr p
+    f'.cartesian.kind = f.cartesian.kind ∧ (f.cartesian.kind ≠ 0 → f'.cartesian = f.cartesian) := by
+  have key : ∀ q : SPoint, (transformPoint rot tr q).cartesian.kind = q.cartesian.kind ∧
+      (q.cartesian.kind ≠ 0 → (transformPoint rot tr q).cartesian = q.cartesian) := by
+    intro q
+    unfold transformPoint
+    split
+    · rename_i h; simp at h; simp [h]
+    · simp
+  unfold perPointOf
+  simp only
+  generalize (if o.i2c then convertIntensity _ else _) = q
+  cases b <;> cases o.transform <;> cases pose <;> simp [key q]
+  · exact fun h => ((key q).2 h).symm
+  · exact (key q).2
+
+/-- without a pose the switch `transform` is not read by the post-processing at all -/
+theorem no_pose_no_change_perPointOf (o : Options) (b : Bool) (rot : Array Float)
+    (tr : Float × Float × Float) :
+    perPointOf { o with transform := b } false rot tr = perPointOf o false rot tr := by
+  funext p; simp [perPointOf]
+
 /-- `ni`, `nc` are not read by the post-processing at all -/
-theorem perPointOf_ni (o : Options) (b : Bool) (rot : Array Float) (tr : Float × Float × Float) :
-    perPointOf { o with ni := b } rot tr = perPointOf o rot tr := rfl
-theorem perPointOf_nc (o : Options) (b : Bool) (rot : Array Float) (tr : Float × Float × Float) :
-    perPointOf { o with nc := b } rot tr = perPointOf o rot tr := rfl
+theorem perPointOf_ni (o : Options) (b : Bool) (pose : Bool) (rot : Array Float) (tr : Float × Float × Float) :
+    perPointOf { o with ni := b } pose rot tr = perPointOf o pose rot tr := rfl
+theorem perPointOf_nc (o : Options) (b : Bool) (pose : Bool) (rot : Array Float) (tr : Float × Float × Float) :
+    perPointOf { o with nc := b } pose rot tr = perPointOf o pose rot tr := rfl
 
 /-- the four post-processing switches are not read by `viewPoint` -/
 theorem viewPoint_postopts (it : SimpleIter) (o : Options) (hni : o.ni = it.opts.ni)
@@ -1612,10 +1647,10 @@ theorem locality_nc (it : SimpleIter) (b : Bool) (vs : List Value) :
   refine (view_locality_nc it b vs).map ?_
   rintro p' p ⟨hc, hs, hi, hr, hcl⟩
   simp only [perPoint_eq]
-  have h' := perPointOf_frame { it.opts with nc := b } it.rotation it.translation p'
-  have h := perPointOf_frame it.opts it.rotation it.translation p
-  exact ⟨perPointOf_cartesian_congr _ _ hc hs rfl rfl,
-    perPointOf_spherical_congr _ _ _ _ hc hs rfl rfl,
+  have h' := perPointOf_frame { it.opts with nc := b } it.pc.transform.isSome it.rotation it.translation p'
+  have h := perPointOf_frame it.opts it.pc.transform.isSome it.rotation it.translation p
+  exact ⟨perPointOf_cartesian_congr _ _ _ hc hs rfl rfl,
+    perPointOf_spherical_congr _ _ _ _ _ _ hc hs rfl rfl,
     by rw [h'.1, h.1, hi], by rw [h'.2.1, h.2.1, hr], by rw [h'.2.2, h.2.2, hcl]⟩
 
 /-- on the documented view: `ni` influences at most `intensity` and – only when `i2c` is on and
@@ -1628,14 +1663,14 @@ theorem locality_ni (it : SimpleIter) (b : Bool) (vs : List Value) :
   refine (view_locality_ni it b vs).map ?_
   rintro p' p ⟨hc, hs, hcol, hr, hcl⟩
   simp only [perPoint_eq]
-  have h' := perPointOf_frame { it.opts with ni := b } it.rotation it.translation p'
-  have h := perPointOf_frame it.opts it.rotation it.translation p
-  refine ⟨perPointOf_cartesian_congr _ _ hc hs rfl rfl,
-    perPointOf_spherical_congr _ _ _ _ hc hs rfl rfl,
+  have h' := perPointOf_frame { it.opts with ni := b } it.pc.transform.isSome it.rotation it.translation p'
+  have h := perPointOf_frame it.opts it.pc.transform.isSome it.rotation it.translation p
+  refine ⟨perPointOf_cartesian_congr _ _ _ hc hs rfl rfl,
+    perPointOf_spherical_congr _ _ _ _ _ _ hc hs rfl rfl,
     by rw [h'.2.1, h.2.1, hr], by rw [h'.2.2, h.2.2, hcl], ?_⟩
   intro hi
-  rw [perPointOf_color_passthrough { it.opts with ni := b } _ _ p' (.inl hi),
-    perPointOf_color_passthrough it.opts _ _ p (.inl hi), hcol]
+  rw [perPointOf_color_passthrough { it.opts with ni := b } _ _ _ p' (.inl hi),
+    perPointOf_color_passthrough it.opts _ _ _ p (.inl hi), hcol]
 
 /-- `ni` and stored colour: when the view has a colour of its own, `ni` does not change it -/
 theorem locality_ni_color (it : SimpleIter) (b : Bool) (vs : List Value) (p' p : SPoint)
@@ -1646,17 +1681,124 @@ theorem locality_ni_color (it : SimpleIter) (b : Bool) (vs : List Value) (p' p :
   rw [h', h] at hv
   obtain ⟨_, _, hc, _, _⟩ := hv
   simp only [perPoint_eq]
-  rw [perPointOf_color_passthrough { it.opts with ni := b } _ _ p' (.inr (by rw [hc]; exact hcol)),
-    perPointOf_color_passthrough it.opts _ _ p (.inr hcol), hc]
+  rw [perPointOf_color_passthrough { it.opts with ni := b } _ _ _ p' (.inr (by rw [hc]; exact hcol)),
+    perPointOf_color_passthrough it.opts _ _ _ p (.inr hcol), hc]
 
 /-- the four post-processing switches on the documented view (they are not read by `viewPoint`) -/
 theorem fullView_postopts (it : SimpleIter) (o : Options) (hni : o.ni = it.opts.ni)
     (hnc : o.nc = it.opts.nc) (vs : List Value) :
     fullView { it with opts := o } vs
-      = (viewPoint it vs).map (perPointOf o it.rotation it.translation) := by
+      = (viewPoint it vs).map (perPointOf o it.pc.transform.isSome it.rotation it.translation) := by
   unfold fullView
   rw [viewPoint_postopts it o hni hnc]
   rfl
+
+
+/-! ### a point cloud without a pose: the switch `transform` has no effect -/
+
+/-- the iterator with the switch `transform` set to `b` (`PointCloudReaderSimple::apply_pose`) -/
+def SimpleIter.withTransform (it : SimpleIter) (b : Bool) : SimpleIter :=
+  { it with opts := { it.opts with transform := b } }
+
+/-- for a point cloud without a pose the four passes do the same to a batch whatever `transform` says
+    (before the repair of the crate `transform := true` multiplied with the identity and added zero,
+    which is not neutral for floats) -/
+theorem no_pose_no_change (it : SimpleIter) (h : it.pc.transform = none) (b : Bool)
+    (batch : List SPoint) :
+    postProcess (it.withTransform b) batch = postProcess it batch := by
+  unfold postProcess
+  simp only [SimpleIter.withTransform, h, Option.isSome_none, Bool.and_false, Bool.false_eq_true,
+    if_false]
+  rfl
+
+/-- … in particular `transform := true` and `transform := false` give the same points -/
+theorem no_pose_no_change_true_false (it : SimpleIter) (h : it.pc.transform = none)
+    (batch : List SPoint) :
+    postProcess (it.withTransform true) batch = postProcess (it.withTransform false) batch := by
+  rw [no_pose_no_change it h true, no_pose_no_change it h false]
+
+/-- … and the pose is then not applied at all: the coordinates leave the post-processing as the
+    conversions `s2c`, `c2s`, `i2c` left them -/
+theorem no_pose_perPoint (it : SimpleIter) (h : it.pc.transform = none) :
+    perPoint it = perPointOf { it.opts with transform := false } false it.rotation it.translation := by
+  funext p
+  unfold perPoint perPointOf
+  simp only [h, Option.isSome_none, Bool.and_false, Bool.false_eq_true, if_false]
+
+/-- the documented view of a raw point does not depend on `transform` either -/
+theorem no_pose_no_change_fullView (it : SimpleIter) (h : it.pc.transform = none) (b : Bool) :
+    fullView (it.withTransform b) = fullView it := by
+  funext vs
+  unfold fullView
+  rw [show viewPoint (it.withTransform b) = viewPoint it from viewPoint_postopts it _ rfl rfl]
+  congr 1
+  funext p
+  unfold perPoint
+  simp only [SimpleIter.withTransform, h, Option.isSome_none, Bool.and_false, Bool.false_eq_true,
+    if_false]
+  rfl
+
+theorem popBatch_congr (it it' : SimpleIter) (h : viewPoint it' = viewPoint it) :
+    ∀ (n : Nat) (q : QR) (acc : List SPoint), popBatch it' n q acc = popBatch it n q acc := by
+  intro n
+  induction n with
+  | zero => intro q acc; rfl
+  | succ n ih =>
+    intro q acc
+    simp only [popBatch, h, ih]
+
+/-- the remaining case of `next`, with any batch buffer: the refill succeeded and `popBatch` ran -/
+theorem simple_next_popped (it : SimpleIter) (r : PR) (h : it.read < it.pc.records)
+    (hp : it.points = []) {r1 : PR} {q1 q2 : QR} {batch : List SPoint} {ok : Bool}
+    (hr : refill (refillFuel r) it.q r = (r1, q1, true))
+    (hpb : popBatch it q1.available q1 [] = (q2, batch, ok)) :
+    it.next r =
+      if !ok then (r1, { it with q := q2, buffer := it.buffer ++ batch }, .error) else
+      match postProcess { it with q := q2, buffer := it.buffer ++ batch } (it.buffer ++ batch) with
+      | p :: rest => (r1, { it with q := q2, buffer := [], points := rest, read := it.read + 1 }, .value p)
+      | [] => (r1, { it with q := q2, buffer := [] }, .error) := by
+  have : ¬ it.pc.records ≤ it.read := by omega
+  simp only [SimpleIter.next, ge_iff_le, this, if_false, hp, hr, hpb]
+  rfl
+
+/-- one call of `next`: same reader state, same item, same iterator state (up to the switch itself) -/
+theorem no_pose_no_change_next (it : SimpleIter) (h : it.pc.transform = none) (b : Bool) (r : PR) :
+    (it.withTransform b).next r
+      = ((it.next r).1, (it.next r).2.1.withTransform b, (it.next r).2.2) := by
+  have hv : viewPoint (it.withTransform b) = viewPoint it := viewPoint_postopts it _ rfl rfl
+  by_cases h1 : it.pc.records ≤ it.read
+  · rw [simple_next_done it r h1, simple_next_done (it.withTransform b) r h1]
+  have h1 : it.read < it.pc.records := by omega
+  rcases hp : it.points with _ | ⟨p, rest⟩
+  case cons =>
+    rw [simple_next_buffered it r h1 hp, simple_next_buffered (it.withTransform b) r h1 hp]; rfl
+  rcases hr : refill (refillFuel r) it.q r with ⟨r1, q1, ok⟩
+  cases ok
+  · rw [simple_next_refill_fail it r h1 hp hr, simple_next_refill_fail (it.withTransform b) r h1 hp hr]; rfl
+  rcases hpb : popBatch it q1.available q1 [] with ⟨q2, batch, ok2⟩
+  have hpb' : popBatch (it.withTransform b) q1.available q1 [] = (q2, batch, ok2) := by
+    rw [popBatch_congr it _ hv, hpb]
+  rw [simple_next_popped it r h1 hp hr hpb, simple_next_popped (it.withTransform b) r h1 hp hr hpb']
+  cases ok2
+  · rfl
+  · have hpp : postProcess { it.withTransform b with q := q2, buffer := (it.withTransform b).buffer ++ batch }
+          ((it.withTransform b).buffer ++ batch)
+        = postProcess { it with q := q2, buffer := it.buffer ++ batch } (it.buffer ++ batch) :=
+      no_pose_no_change { it with q := q2, buffer := it.buffer ++ batch } h b (it.buffer ++ batch)
+    simp only [Bool.not_true, Bool.false_eq_true, if_false]
+    rw [hpp]
+    cases postProcess { it with q := q2, buffer := it.buffer ++ batch } (it.buffer ++ batch) <;> rfl
+
+/-- any number of calls: the items returned are the same with `transform := b` as without -/
+theorem no_pose_no_change_items (k : Nat) : ∀ (it : SimpleIter) (r : PR), it.pc.transform = none →
+    ∀ b, (it.withTransform b).items k r = it.items k r := by
+  induction k with
+  | zero => intro it r _ b; rfl
+  | succ k ih =>
+    intro it r h b
+    rw [SimpleIter.items, SimpleIter.items, no_pose_no_change_next it h b r]
+    simp only
+    rw [ih _ _ (by rw [(next_frame it r).1]; exact h) b]
 
 
 /-! ## 4. the simple iterator against the raw iterator -/
@@ -1681,7 +1823,7 @@ theorem SameMeta.viewPoint {it' it} (h : SameMeta it' it) : viewPoint it' = view
 theorem SameMeta.fullView {it' it} (h : SameMeta it' it) : fullView it' = fullView it := by
   funext vs
   unfold E57.fullView
-  rw [h.viewPoint, perPoint_congr it it' h.opts h.rotation h.translation]
+  rw [h.viewPoint, perPoint_congr it it' h.opts (by rw [h.pc]) h.rotation h.translation]
 
 theorem next_sameMeta (it : SimpleIter) (r : PR) : SameMeta (it.next r).2.1 it := by
   obtain ⟨a, b, c, d, e, f, g, h, i⟩ := next_frame it r
